@@ -199,69 +199,6 @@ def insertBody (pdu : Pdu) (number : Nat) (data : Bytes) : R (Nat × Pdu) :=
     let buf2 := buf1.take o ++ optEncode delta data ++ buf1.drop (o + shrink)
     R.ok (shift, { pdu with buf := buf2, data := pdu.data.map (· + shift - shrink) })
 
-/-- `coap_add_option_internal` from `optsize = coap_opt_encode_size(…)` on (`number ≥ max_opt`) -/
-def appendOption (pdu : Pdu) (number : Nat) (data : Bytes) : R (Nat × Pdu) :=
-  let len := data.length
-  let delta := (number - pdu.maxOpt) % 65536
-  let optsize := optEncodeSize delta len
-  if ¬ checkResize pdu (pdu.buf.length + optsize) then R.ok (0, pdu) else
-  match pdu.data with
-  | some d =>
-    -- memmove(&data[optsize-1], &data[-1], …) (marker + payload move up); opt = data - 1; data += optsize
-    if d = 0 ∨ d > pdu.buf.length then R.oob else
-    R.ok (optsize, { pdu with buf := pdu.buf.take (d - 1) ++ optEncode delta data ++ pdu.buf.drop (d - 1),
-                              data := some (d + optsize), maxOpt := number })
-  | none =>
-    R.ok (optsize, { pdu with buf := pdu.buf ++ optEncode delta data, maxOpt := number })
-
-/-- `coap_add_option_internal`, with `coap_insert_option` passed in (the two C functions call each
-other; the nesting is at most add(35|39) → insert(16) → add(16), see `addOptionInternal` below) -/
-def addInternalK (ins : Pdu → Nat → Bytes → R (Nat × Pdu)) (pdu : Pdu) (number : Nat) (data : Bytes) : R (Nat × Pdu) :=
-  if data.length > 65804 then R.ok (0, pdu) else   -- fix: a value the wire format cannot carry is refused
-  if number = pdu.maxOpt ∧ ¬ repeatable number then R.ok (0, pdu) else do
-  let pdu ←
-    (if (pdu.code ≠ 0 ∧ pdu.code < 32) ∧ (number = 35 ∨ number = 39) ∧ ¬ hasOption pdu 16 then do
-      -- size_t hop_limit = COAP_OPTION_HOP_LIMIT; its first byte (little endian) is the value; result ignored
-      let r ← ins pdu 16 [16]
-      R.ok r.2
-    else R.ok pdu : R Pdu)
-  if number < pdu.maxOpt then ins pdu number data
-  else appendOption pdu number data
-
-/-- `coap_insert_option`, with `coap_add_option_internal` passed in -/
-def insertK (add : Pdu → Nat → Bytes → R (Nat × Pdu)) (pdu : Pdu) (number : Nat) (data : Bytes) : R (Nat × Pdu) :=
-  if data.length > 65804 then R.ok (0, pdu) else   -- fix: a value the wire format cannot carry is refused
-  if number ≥ pdu.maxOpt then add pdu number data else insertBody pdu number data
-
-def add0 : Pdu → Nat → Bytes → R (Nat × Pdu) := fun _ _ _ => R.oob   -- recursion depth exceeded: never reached
-def ins1 := insertK add0
-def add2 := addInternalK ins1
-def ins3 := insertK add2
-/-- `coap_add_option_internal(pdu, number, len, data)` -/
-def addOptionInternal := addInternalK ins3
-/-- `coap_insert_option(pdu, number, len, data)` -/
-def insertOption := insertK addOptionInternal
-
-/-- `coap_add_option(pdu, number, len, data)` -/
-def addOption (pdu : Pdu) (number : Nat) (data : Bytes) : R (Nat × Pdu) :=
-  if pdu.data.isSome then R.ok (0, pdu) else addOptionInternal pdu number data
-
-/-- `coap_update_option(pdu, number, len, data)` -/
-def updateOption (pdu : Pdu) (number : Nat) (data : Bytes) : R (Nat × Pdu) :=
-  let len := data.length
-  if len > 65804 then R.ok (0, pdu) else         -- fix: a value the wire format cannot carry is refused
-  match findEq number (items pdu) with
-  | none => insertOption pdu number data
-  | some (it, _) =>
-    -- old_length = coap_opt_parse(option, (size_t)-1, &decode): same result as the iterator's bounded parse
-    let oldLength := it.p.size
-    if oldLength = 0 then R.ok (0, pdu) else
-    let newLength := optEncodeSize it.p.delta len
-    if newLength > oldLength ∧ ¬ checkResize pdu (pdu.buf.length + newLength - oldLength) then R.ok (0, pdu) else
-    -- memmove(&option[new_length], &option[old_length], …); coap_opt_encode(option, new_length, decode.delta, data, len)
-    let buf2 := pdu.buf.take it.ofs ++ optEncode it.p.delta data ++ pdu.buf.drop (it.ofs + oldLength)
-    R.ok (1, { pdu with buf := buf2, data := pdu.data.map (· + newLength - oldLength) })
-
 /-- `coap_remove_option(pdu, number)` -/
 def removeOption (pdu : Pdu) (number : Nat) : R (Nat × Pdu) :=
   match findEq number (items pdu) with
@@ -319,6 +256,76 @@ def removeOption (pdu : Pdu) (number : Nat) : R (Nat × Pdu) :=
         -- memmove(option, next_option, used_size - (next_option - token)); used_size -= next_option - option
         R.ok (1, { pdu with buf := buf1.take o ++ buf1.drop n1,
                             data := pdu.data.map (· + grown - (n1 - o)) })
+
+/-- `coap_add_option_internal` from `optsize = coap_opt_encode_size(…)` on (`number ≥ max_opt`) -/
+def appendOption (pdu : Pdu) (number : Nat) (data : Bytes) : R (Nat × Pdu) :=
+  let len := data.length
+  let delta := (number - pdu.maxOpt) % 65536
+  let optsize := optEncodeSize delta len
+  if ¬ checkResize pdu (pdu.buf.length + optsize) then R.ok (0, pdu) else
+  match pdu.data with
+  | some d =>
+    -- memmove(&data[optsize-1], &data[-1], …) (marker + payload move up); opt = data - 1; data += optsize
+    if d = 0 ∨ d > pdu.buf.length then R.oob else
+    R.ok (optsize, { pdu with buf := pdu.buf.take (d - 1) ++ optEncode delta data ++ pdu.buf.drop (d - 1),
+                              data := some (d + optsize), maxOpt := number })
+  | none =>
+    R.ok (optsize, { pdu with buf := pdu.buf ++ optEncode delta data, maxOpt := number })
+
+/-- `coap_add_option_internal`, with `coap_insert_option` passed in (the two C functions call each
+other; the nesting is at most add(35|39) → insert(16) → add(16), see `addOptionInternal` below).
+After fix: `hop_limit_added` remembers that this call inserted the implicit Hop-Limit, and every
+failure return behind that point (`goto fail`) removes it again with `coap_remove_option`. -/
+def addInternalK (ins : Pdu → Nat → Bytes → R (Nat × Pdu)) (pdu : Pdu) (number : Nat) (data : Bytes) : R (Nat × Pdu) :=
+  if data.length > 65804 then R.ok (0, pdu) else   -- fix: a value the wire format cannot carry is refused
+  if number = pdu.maxOpt ∧ ¬ repeatable number then R.ok (0, pdu) else do
+  -- (the PDU after the optional implicit Hop-Limit, hop_limit_added)
+  let (pdu, hopAdded) ←
+    (if (pdu.code ≠ 0 ∧ pdu.code < 32) ∧ (number = 35 ∨ number = 39) ∧ ¬ hasOption pdu 16 then do
+      -- size_t hop_limit = COAP_OPTION_HOP_LIMIT; its first byte (little endian) is the value
+      let r ← ins pdu 16 [16]
+      R.ok (r.2, decide (r.1 ≠ 0))
+    else R.ok (pdu, false) : R (Pdu × Bool))
+  let r ← (if number < pdu.maxOpt then ins pdu number data else appendOption pdu number data)
+  -- fail: a refused option does not leave its implicit Hop-Limit behind (result of the removal ignored)
+  if r.1 = 0 ∧ hopAdded = true then do
+    let r2 ← removeOption r.2 16
+    R.ok (0, r2.2)
+  else R.ok r
+
+/-- `coap_insert_option`, with `coap_add_option_internal` passed in -/
+def insertK (add : Pdu → Nat → Bytes → R (Nat × Pdu)) (pdu : Pdu) (number : Nat) (data : Bytes) : R (Nat × Pdu) :=
+  if data.length > 65804 then R.ok (0, pdu) else   -- fix: a value the wire format cannot carry is refused
+  if number ≥ pdu.maxOpt then add pdu number data else insertBody pdu number data
+
+def add0 : Pdu → Nat → Bytes → R (Nat × Pdu) := fun _ _ _ => R.oob   -- recursion depth exceeded: never reached
+def ins1 := insertK add0
+def add2 := addInternalK ins1
+def ins3 := insertK add2
+/-- `coap_add_option_internal(pdu, number, len, data)` -/
+def addOptionInternal := addInternalK ins3
+/-- `coap_insert_option(pdu, number, len, data)` -/
+def insertOption := insertK addOptionInternal
+
+/-- `coap_add_option(pdu, number, len, data)` -/
+def addOption (pdu : Pdu) (number : Nat) (data : Bytes) : R (Nat × Pdu) :=
+  if pdu.data.isSome then R.ok (0, pdu) else addOptionInternal pdu number data
+
+/-- `coap_update_option(pdu, number, len, data)` -/
+def updateOption (pdu : Pdu) (number : Nat) (data : Bytes) : R (Nat × Pdu) :=
+  let len := data.length
+  if len > 65804 then R.ok (0, pdu) else         -- fix: a value the wire format cannot carry is refused
+  match findEq number (items pdu) with
+  | none => insertOption pdu number data
+  | some (it, _) =>
+    -- old_length = coap_opt_parse(option, (size_t)-1, &decode): same result as the iterator's bounded parse
+    let oldLength := it.p.size
+    if oldLength = 0 then R.ok (0, pdu) else
+    let newLength := optEncodeSize it.p.delta len
+    if newLength > oldLength ∧ ¬ checkResize pdu (pdu.buf.length + newLength - oldLength) then R.ok (0, pdu) else
+    -- memmove(&option[new_length], &option[old_length], …); coap_opt_encode(option, new_length, decode.delta, data, len)
+    let buf2 := pdu.buf.take it.ofs ++ optEncode it.p.delta data ++ pdu.buf.drop (it.ofs + oldLength)
+    R.ok (1, { pdu with buf := buf2, data := pdu.data.map (· + newLength - oldLength) })
 
 /-- `coap_add_data(pdu, len, data)` → `coap_add_data_after` + memcpy -/
 def addData (pdu : Pdu) (data : Bytes) : R (Nat × Pdu) :=
